@@ -263,6 +263,60 @@ fn exec(ctx: &mut Ctx, s: &mut S, op: &str) {
             catch(|| s.a.count_zeros()).map(|x| format!("ok {}", x)),
             format!("ok {}", s.oa.iter().filter(|x| !**x).count()),
         ),
+        "sv_count_ones" | "sv_ones" | "sv_zeros" | "sv_iter" | "sv_get" | "sv_eq" => {
+            // the same contents seen through BitVec<&[usize]> over caller-supplied storage that starts
+            // at an odd word offset (8 mod 16 bytes) and at an even one: both must answer alike
+            let ws = words_of(&s.a);
+            let len = s.a.len();
+            let run = |want_odd: bool| -> Option<String> {
+                // buffer = two guard words, the contents, one guard word; the view starts at the
+                // guard-word index whose address is 8 mod 16 (odd) resp. 0 mod 16 (even)
+                let mut buf: Vec<usize> = vec![usize::MAX; 2];
+                buf.extend_from_slice(&ws);
+                buf.push(0x5555_5555_5555_5555);
+                let base = buf.as_ptr() as usize;
+                let k = if ((base + 16) % 16 == 8) == want_odd { 2 } else { 1 };
+                // contents must start at index k: rebuild with k guard words in front
+                let mut b2: Vec<usize> = Vec::with_capacity(ws.len() + 4);
+                let base2 = b2.as_ptr() as usize;
+                let k2 = if ((base2 + 8 * k) % 16 == 8) == want_odd { k } else { k + 1 };
+                b2.extend(std::iter::repeat(usize::MAX).take(k2));
+                b2.extend_from_slice(&ws);
+                b2.push(0x5555_5555_5555_5555);
+                debug_assert_eq!(b2.as_ptr() as usize, base2);
+                let _ = buf;
+                let view: BitVec<&[usize]> =
+                    unsafe { BitVec::from_raw_parts(&b2[k2..k2 + ws.len()], len) };
+                catch(|| match t[0] {
+                    "sv_count_ones" => format!("ok {}", view.count_ones()),
+                    "sv_ones" => format!("ok {}", fmt_list(view.iter_ones())),
+                    "sv_zeros" => format!("ok {}", fmt_list(view.iter_zeros())),
+                    "sv_iter" => format!("ok {}", fmt_bools(view.iter())),
+                    "sv_get" => {
+                        let i = t[1].parse::<usize>().unwrap();
+                        format!("ok {}", b01(view.get(i)))
+                    }
+                    _ => format!("ok {}", b01(view == s.b)),
+                })
+            };
+            let r1 = run(true);
+            let r2 = run(false);
+            let o = match t[0] {
+                "sv_count_ones" => format!("ok {}", s.oa.iter().filter(|x| **x).count()),
+                "sv_ones" => format!("ok {}", fmt_list(s.oa.iter().enumerate().filter(|x| *x.1).map(|x| x.0))),
+                "sv_zeros" => format!("ok {}", fmt_list(s.oa.iter().enumerate().filter(|x| !*x.1).map(|x| x.0))),
+                "sv_iter" => format!("ok {}", fmt_bools(s.oa.iter().copied())),
+                "sv_get" => {
+                    let i = t[1].parse::<usize>().unwrap();
+                    if i < s.oa.len() { format!("ok {}", b01(s.oa[i])) } else { "panic".into() }
+                }
+                _ => format!("ok {}", b01(s.oa == s.ob)),
+            };
+            if r1 != r2 {
+                ctx.check_oracle("slice views at odd and even word offsets agree", &format!("{:?} vs {:?}", r1, r2));
+            }
+            (r1, o)
+        }
         "eq" => (
             catch(|| s.a == s.b).map(|x| format!("ok {}", b01(x))),
             format!("ok {}", b01(s.oa == s.ob)),
@@ -427,7 +481,7 @@ fn gen_ctor(ctx: &mut Ctx) -> String {
 }
 
 fn gen_op(ctx: &mut Ctx, len: usize) -> String {
-    match ctx.rng.below(48) {
+    match ctx.rng.below(51) {
         0..=5 => format!("push {}", b01(ctx.rng.bool())),
         6..=8 => "pop".into(),
         9..=13 => format!("set {} {}", gen_index(ctx, len), b01(ctx.rng.bool())),
@@ -468,7 +522,9 @@ fn gen_op(ctx: &mut Ctx, len: usize) -> String {
         44 => ctx.rng.pick(&["areset", "acount", "aiter"]).to_string(),
         45 => format!("par_fill {}", b01(ctx.rng.bool())),
         46 => ctx.rng.pick(&["par_flip", "par_reset"]).to_string(),
-        _ => "par_count_ones".into(),
+        47 => "par_count_ones".into(),
+        48 | 49 => ctx.rng.pick(&["sv_count_ones", "sv_ones", "sv_zeros", "sv_iter", "sv_eq"]).to_string(),
+        _ => format!("sv_get {}", gen_index(ctx, len)),
     }
 }
 
@@ -505,8 +561,9 @@ fn directed(ctx: &mut Ctx) {
     ];
     let obs = [
         "iter", "ones", "zeros", "count_ones", "count_zeros", "par_count_ones", "acount", "aiter",
-        "get 0", "get 63", "get 64", "get 69", "get 70", "index 1", "aget 0", "pop", "ones",
-        "zeros",
+        "get 0", "get 63", "get 64", "get 69", "get 70", "index 1", "aget 0", "sv_count_ones",
+        "sv_ones", "sv_zeros", "sv_iter", "sv_eq", "sv_get 0", "sv_get 64", "sv_get 1000", "pop",
+        "ones", "zeros",
     ];
     for c in &ctors {
         for m in [
